@@ -18,6 +18,7 @@ import PV.Model.Reader
 import PV.Model.Io
 import PV.Model.Flatten
 import PV.Model.Warc
+import PV.Model.Format
 import PV.Spec.Flatten
 import PV.Gen.Flatten
 import PV.Spec.FirstOcc
@@ -425,6 +426,32 @@ def warc (op : String) (args : List String) : String :=
     | _, _ => "bad-op"
   | _, _ => "bad-op"
 
+def fmtPair (p : Nat × Nat) : String := s!"ok {p.1} {p.2}"
+
+/-- fmt.<type> <value>  ->  ok <text length> <bytes touched> ; for float/double the arguments are
+    <kind> <neg> <ndigits> <decimal point> as double-conversion produced them. -/
+def fmt (op : String) (args : List String) : String :=
+  match op, args with
+  | "u16", [v] => match v.toNat? with | some v => fmtPair (PV.Format.u32 v) | none => "bad-op"
+  | "u32", [v] => match v.toNat? with | some v => fmtPair (PV.Format.u32 v) | none => "bad-op"
+  | "u64", [v] => match v.toNat? with | some v => fmtPair (PV.Format.u64 v) | none => "bad-op"
+  | "i16", [v] => match v.toInt? with | some v => fmtPair (PV.Format.i32 v) | none => "bad-op"
+  | "i32", [v] => match v.toInt? with | some v => fmtPair (PV.Format.i32 v) | none => "bad-op"
+  | "i64", [v] => match v.toInt? with | some v => fmtPair (PV.Format.i64 v) | none => "bad-op"
+  | _, [kind, neg, nd, dp] =>
+    if op == "double" || op == "float" then
+      match nd.toNat?, dp.toInt? with
+      | some nd, some dp =>
+        if kind == "num" then
+          let l := PV.Format.shortestLen (neg == "1") nd dp
+          s!"ok {l} {l + 1}"
+        else
+          let l := PV.Format.specialLen kind (neg == "1")
+          s!"ok {l} {l + 1}"
+      | _, _ => "bad-op"
+    else "bad-op"
+  | _, _ => "bad-op"
+
 def dispatch (line : String) : String :=
   match words line with
   | [] => "bad-op"
@@ -443,6 +470,7 @@ def dispatch (line : String) : String :=
     | ["io", op] => io op args
     | ["flat", op] => flat op args
     | ["warc", op] => warc op args
+    | ["fmt", op] => fmt op args
     | ["flat", "spec", op] => flat ("spec." ++ op) args
     | ["tools", "spec", op] => tools ("spec." ++ op) args
     | ["murmur", "spec", op] => murmur ("spec." ++ op) args
